@@ -348,6 +348,15 @@ func runC05(r *core.Run) {
 			return core.Outcome{Class: fmt.Sprint("trees=", len(c.Trees)), Nontrivial: len(c.Trees) >= 2, Evals: len(c.Trees) + 1}
 		})
 
+	marshalHistories(r, "newick", func() []marshaller {
+		var out []marshaller
+		for i, t := range nwTreePool()[:6] {
+			n := t.build()
+			out = append(out, marshaller{fmt.Sprint("pool tree ", i), n.MarshalText, func(w *bytes.Buffer) error { return n.Write(w) }})
+		}
+		return out
+	})
+
 	core.Clause(r, "degenerate", core.Opts{Serial: true, Rule: "chain of n nodes and star with n children (names n<i>, distances i); non-trivial = all"},
 		func(emit func(c05Big) bool) {
 			emit(c05Big{"chain", 1000})
